@@ -40,12 +40,13 @@ class C17(Check):
     budget = {'quick': 150, 'thorough': 1800}
 
     def bounds(self, tier):
-        return dict(abs_curv='n = 1..%d fixes, with a user feature present, computed twice' % (3 if tier == 'quick' else 5),
+        return dict(abs_curv='n = 1..%d fixes, with a user feature present, computed twice; also on a track extracted from a longer one that already carries a ds feature (first value not 0)' % (3 if tier == 'quick' else 5),
                     speed='n = 2..%d fixes (every pattern of equal / increasing instants is a path), computed twice' % (3 if tier == 'quick' else 4))
 
     def jobs(self, tier, seed):
         q = tier == 'quick'
         js = [dict(kind='abscurv', n=n) for n in range(1, (3 if q else 5) + 1)]
+        js += [dict(kind='abscurv', n=n, stale=True) for n in range(1, (3 if q else 4) + 1)]
         js += [dict(kind='speed', n=n) for n in range(2, (3 if q else 4) + 1)]
         js.sort(key=lambda j: -j['n'])
         return js
@@ -72,9 +73,15 @@ class C17(Check):
         eng = ctx.eng
         n = job['n']
         cin = sys.modules[CIN]
-        xs, ys, zs, secs, mss = self._inputs(eng, None, n, job['kind'] == 'speed')
-        feat = [eng.real('f%d' % i, -5, 5) for i in range(n)]
-        tr = build(n, xs, ys, zs, secs, mss, feat)
+        stale = bool(job.get('stale'))
+        xs, ys, zs, secs, mss = self._inputs(eng, None, n + (1 if stale else 0), job['kind'] == 'speed')
+        feat = [eng.real('f%d' % i, -5, 5) for i in range(n + (1 if stale else 0))]
+        tr = build(n + (1 if stale else 0), xs, ys, zs, secs, mss, feat)
+        if stale:
+            # a 'ds' feature computed earlier on a longer track and carried over by extract(): its first value is not 0
+            tr.addAnalyticalFeature(sys.modules[ANA].ds, 'ds')
+            tr = tr.extract(1, n)
+            xs, ys, zs, secs, mss, feat = xs[1:], ys[1:], zs[1:], secs[1:], mss[1:], feat[1:]
         pos = [tr.getObs(i).position for i in range(n)]
         tss = [tr.getObs(i).timestamp for i in range(n)]
         obs = [tr.getObs(i) for i in range(n)]
@@ -182,9 +189,14 @@ class C17(Check):
     def concrete(self, job, inp):
         n = job['n']
         cin = sys.modules[CIN]
-        xs, ys, zs, secs, mss = self._inputs(None, inp, n, job['kind'] == 'speed')
-        feat = [float(inp['f%d' % i]) for i in range(n)]
-        tr = build(n, xs, ys, zs, secs, mss, feat)
+        stale = bool(job.get('stale'))
+        xs, ys, zs, secs, mss = self._inputs(None, inp, n + (1 if stale else 0), job['kind'] == 'speed')
+        feat = [float(inp['f%d' % i]) for i in range(n + (1 if stale else 0))]
+        tr = build(n + (1 if stale else 0), xs, ys, zs, secs, mss, feat)
+        if stale:
+            tr.addAnalyticalFeature(sys.modules[ANA].ds, 'ds')
+            tr = tr.extract(1, n)
+            xs, ys, zs, secs, mss, feat = xs[1:], ys[1:], zs[1:], secs[1:], mss[1:], feat[1:]
         d2 = lambda i, j: math.hypot(xs[i] - xs[j], ys[i] - ys[j])
         tol = lambda v: 1e-9 * max(1.0, abs(v))
         try:
